@@ -438,6 +438,25 @@ GAssignPath(st, p, v) ==
   LET r == GAssignAt(st, st.env[p.base], p.sels, v)
   IN IF r.status # "ok" THEN r ELSE [r EXCEPT !.st.env[p.base] = r.val]
 
+\* containers (object ids, backing ids) reachable from a value
+RECURSIVE GReach(_, _, _)
+GReach(st, v, fuel) ==
+  IF fuel = 0 THEN {}
+  ELSE IF v.t = "obj" THEN
+     LET m == st.heap[v.id].m IN {v.id} \cup UNION {GReach(st, m[k], fuel - 1) : k \in DOMAIN m}
+  ELSE IF v.t = "arr" THEN
+     LET cs == GView(st, v) IN {v.id} \cup UNION {GReach(st, st.heap[cs[i]].v, fuel - 1) : i \in 1..Len(cs)}
+  ELSE {}
+\* would storing v at p put a container below itself?  (what is shown then depends on the allocation)
+RECURSIVE GDeepest(_, _, _)
+GDeepest(st, p, n) ==
+  IF n < 0 THEN Missing
+  ELSE LET r == GReadAt(st, st.env[p.base], SubSeq(p.sels, 1, n), FALSE) IN
+       IF r.status = "ok" /\ r.res.t \in {"arr", "obj"} THEN r.res ELSE GDeepest(st, p, n - 1)
+GMakesCycle(st, p, v, fuel) ==
+  /\ v.t \in {"arr", "obj"} /\ p.sels # <<>>
+  /\ LET d == GDeepest(st, p, Len(p.sels) - 1) IN d.t \in {"arr", "obj"} /\ d.id \in GReach(st, v, fuel)
+
 RECURSIVE GTree(_, _, _)
 GTree(st, v, fuel) ==
   IF fuel = 0 THEN [t |-> "deep"]
